@@ -4,46 +4,71 @@ Monitor shape: reference-model (Python set / dict / sorted() / bytes) driven wit
 same operation sequence as the real object; every observable is compared.
 """
 import collections
+import hashlib
+import io
 import os
 import shutil
 import tempfile
+import zlib
 
 LEVEL = "exploration"
 RULE = ("cases are seeded operation programs: (a) id-set programs = constructor + 6..14 random ops "
-        "(add/discard/update/intersection_update/difference_update/invert_update/copy/binary ops/reads) on "
-        "BitSet/SortedIntSet/OnDiskBitSet/ReverseIdSet/MultiIdSet vs a Python set; (b) hash-file, ordered-hash, "
-        "number-encoding, varint, GrowableArray, external-sort and compound-file round trips vs dict/sorted()/bytes. "
+        "(add/discard/update/intersection_update/difference_update/invert_update/copy/binary ops/==/reads) on "
+        "BitSet/SortedIntSet/ReverseIdSet vs a Python set, with OnDiskBitSet/from_bytes/from_disk/ReverseIdSet views of the "
+        "final state, and MultiIdSet over 1..4 serial sub-sets; (b) hash-file (3 hash types, duplicate keys, forced "
+        "bucket collisions, logical file offsets shifted past 2^16/2^31/2^32), ordered-hash, number-encoding, varint, "
+        "GrowableArray, StructFile, external-sort and compound-file round trips vs dict/sorted()/bytes. "
         "A case is non-trivial when the structure is non-empty; distinct = distinct (kind, class/config, opcode "
         "sequence or size signature).")
 ASSUMPTIONS = [
     "first()/last() of an empty id set may return None or raise (statement does not say)",
-    "offset arrays of type 'q' (file offsets > 2^31) are not reached by writing 2 GB files; GrowableArray retyping itself is exercised with large numbers",
-    "RoaringIdSet and the Fixed/Simple16/GInts NumberEncoding classes are not used by any index format in this tree (dead code) and are not part of the verdict",
+    "an operation a DocIdSet class does not offer (NotImplementedError from the abstract base: before/after/copy of "
+    "ReverseIdSet, before/after/first/last of MultiIdSet) is skipped and counted under idset.not_implemented",
+    "invert_update(size) is only called with size > every member (the docstring defines the result on [0,size) only); "
+    "ReverseIdSet is only used with ids below its limit ('the highest possible ID plus one')",
+    "== between two DocIdSets is taken to be extensional set equality (the classes define __eq__ by element "
+    "comparison and the shipped tests use it that way)",
+    "HashReader.all(key) is compared as a multiset and reader[key] / get(key) must be one of the values stored under the "
+    "key (the order among duplicate keys is not promised)",
+    "file offsets beyond 2^16 / 2^31 / 2^32 are reached through a file object that adds a base to tell()/seek() "
+    "(no multi-gigabyte file is written); GrowableArray retyping itself is also exercised directly with large numbers",
+    "RoaringIdSet (never instantiated by whoosh, iteration/insert broken by construction) and FieldedOrderedHashWriter/"
+    "Reader (never imported anywhere) are dead code and not part of the verdict",
+    "SubFile is observed through CompoundStorage.open_file (read/seek/tell), not through its unreachable subset()",
 ]
 SHARDS = {"quick": 4, "thorough": 16}
 BUDGET_S = {"quick": 60, "thorough": 420}
-FLOORS = {"idset.programs": 50, "hash.cases": 10, "ordered.cases": 10, "extsort.cases": 10,
-          "compound.cases": 5, "enc.cases": 20}
+FLOORS = {"idset.programs": 600, "idset.reads": 10000, "idset.ondisk": 100, "idset.reverse": 300, "idset.multi": 100,
+          "idset.frombytes": 100, "idset.eq.unequal": 100,
+          "hash.cases": 100, "hash.lookups": 2000, "hash.shifted": 20, "hash.bucket_wraps": 20,
+          "ordered.cases": 100, "ordered.probes": 2000,
+          "ordered.indextype.H": 30, "ordered.indextype.i": 5, "ordered.indextype.I": 5, "ordered.indextype.q": 5,
+          "enc.cases": 200, "enc.growable.q": 5, "enc.growable.I": 2, "enc.growable.i": 1,
+          "extsort.cases": 60, "extsort.runs": 200, "extsort.reduced": 5,
+          "compound.cases": 60, "compound.members": 150}
 
 
 def rb(rng, n):
     return bytes(rng.randrange(256) for _ in range(n))
 
 
-# ----------------------------------------------------------------------
-# id sets
-# ----------------------------------------------------------------------
-
 def nfail(ctx):
     return sum(v for k, v in ctx.counters.items() if k.startswith("fail:"))
 
 
-def _reads(ctx, name, obj, model, rng, span, w):
+# ----------------------------------------------------------------------
+# id sets
+# ----------------------------------------------------------------------
+
+def _reads(ctx, name, obj, model, rng, span, w, limit=None):
     """Compare every read API of a DocIdSet with the model set."""
     def chk(what, fn, expect, allow_exc_if_empty=False):
         ctx.count("idset.reads")
         try:
             got = fn()
+        except NotImplementedError:
+            ctx.count("idset.not_implemented")
+            return
         except Exception as e:  # noqa
             if allow_exc_if_empty and not model:
                 return
@@ -52,10 +77,17 @@ def _reads(ctx, name, obj, model, rng, span, w):
         if got != expect:
             ctx.fail("idset.read", "%s.%s" % (name, what), w, "got %r expected %r" % (got, expect))
     sm = sorted(model)
+    top = (span + 3) if limit is None else limit
     chk("iter", lambda: list(obj), sm)
     chk("len", lambda: len(obj), len(sm))
     chk("bool", lambda: bool(obj), bool(sm))
-    for x in (rng.randrange(0, span + 3), rng.randrange(0, span + 3)):
+    probes = [rng.randrange(0, max(1, top)), rng.randrange(0, max(1, top))]
+    if sm:
+        probes.append(rng.choice(sm))
+        probes.append(sm[-1] + 1 if limit is None else sm[-1])
+    for x in probes:
+        if limit is not None and x >= limit:
+            continue
         chk("contains", lambda: x in obj, x in model)
         chk("before", lambda: obj.before(x), max([i for i in sm if i < x], default=None))
         chk("after", lambda: obj.after(x), min([i for i in sm if i > x], default=None))
@@ -64,36 +96,87 @@ def _reads(ctx, name, obj, model, rng, span, w):
 
 
 def idset_program(ctx, rng):
-    from whoosh.idsets import BitSet, SortedIntSet
-    cls = rng.choice([BitSet, SortedIntSet])
-    span = rng.choice([0, 1, 7, 8, 9, 15, 16, 17, 40, 64, 65, 200])
+    from whoosh.idsets import BitSet, SortedIntSet, ReverseIdSet, OnDiskBitSet
+    from whoosh.filedb.filestore import RamStorage
+    kind = rng.choice(["BitSet", "BitSet", "SortedIntSet", "SortedIntSet", "ReverseIdSet"])
+    spans = [0, 1, 7, 8, 9, 15, 16, 17, 40, 64, 65, 200]
+    if not ctx.quick:
+        spans += [255, 256, 1000, 5000]
+    span = rng.choice(spans)
     src = sorted(set(rng.randrange(0, span + 1) for _ in range(rng.randint(0, 10))))
-    ctor = rng.choice(["list", "list", "size", "empty"]) if cls is BitSet else rng.choice(["list", "list", "empty"])
     prog = []
-    w = {"class": cls.__name__, "ctor": ctor, "source": src, "span": span, "program": prog}
+    limit = None
+    if kind == "BitSet":
+        ctor = rng.choice(["list", "list", "tuple", "set", "gen", "size", "size0", "empty"])
+    elif kind == "SortedIntSet":
+        ctor = rng.choice(["list", "list", "set", "gen", "empty", "typecode"])
+    else:
+        ctor = rng.choice(["BitSet", "SortedIntSet"])
+        limit = span + 1 + rng.randint(0, 5)
+    w = {"class": kind, "ctor": ctor, "source": src, "span": span, "program": prog}
+    if limit is not None:
+        w["limit"] = limit
+    typecode = "I"
+
+    def make(cls_kind, members):
+        """A fresh set of the program's class holding `members` (for == and as `other`)."""
+        if cls_kind == "BitSet":
+            return BitSet(sorted(members)) if members else BitSet()
+        if cls_kind == "SortedIntSet":
+            return SortedIntSet(sorted(members))
+        inner = set(range(limit)) - set(members)
+        return ReverseIdSet(SortedIntSet(sorted(inner)), limit)
+
     try:
-        if ctor == "list":
-            obj = cls(src)
-        elif ctor == "size":
-            obj = cls(src, size=span + 1)
+        if kind == "ReverseIdSet":
+            inner = BitSet(src) if (ctor == "BitSet" and src) else (BitSet() if ctor == "BitSet" else SortedIntSet(src))
+            obj = ReverseIdSet(inner, limit)
+            model = set(range(limit)) - set(src)
         else:
-            obj = cls()
-            src = []
+            cls = BitSet if kind == "BitSet" else SortedIntSet
+            if ctor == "list":
+                obj = cls(list(src))
+            elif ctor == "tuple":
+                obj = cls(tuple(src))
+            elif ctor == "set":
+                obj = cls(set(src))
+            elif ctor == "gen":
+                obj = cls(i for i in src)
+            elif ctor == "size":
+                obj = cls(src, size=span + 1)
+            elif ctor == "size0":
+                obj = cls(size=span + 1)
+                src = []
+            elif ctor == "typecode":
+                typecode = rng.choice(["H", "I", "L", "Q"])
+                obj = cls(src, typecode=typecode)
+                w["typecode"] = typecode
+            else:
+                obj = cls()
+                src = []
             w["source"] = src
+            model = set(src)
     except Exception as e:  # noqa
-        ctx.fail("idset.ctor", "%s(%s):exc:%s" % (cls.__name__, "empty-list" if not src else ctor, type(e).__name__), w, repr(e))
-        return ("idset", cls.__name__, ctor, "ctor-failed"), False, w
-    model = set(src)
-    name = cls.__name__
+        ctx.fail("idset.ctor", "%s(%s):exc:%s" % (kind, "empty-" + ctor if not src else ctor, type(e).__name__), w, repr(e))
+        return ("idset", kind, ctor, "ctor-failed"), False, w
+    name = kind
     ops = []
     nf0 = nfail(ctx)
+    top = (span + 20) if limit is None else limit
+    if kind == "ReverseIdSet":
+        menu = ["add", "discard", "update", "intersection_update", "difference_update", "invert_update",
+                "isdisjoint", "eq", "reads", "remove_present", "add", "discard"]
+    else:
+        menu = ["add", "discard", "update", "intersection_update", "difference_update",
+                "invert_update", "copy", "union", "intersection", "difference", "isdisjoint",
+                "eq", "reads", "clear", "add", "remove_present", "operators", "invert"]
     for _ in range(rng.randint(6, 14)):
-        op = rng.choice(["add", "discard", "update", "intersection_update", "difference_update",
-                         "invert_update", "copy", "union", "intersection", "difference", "isdisjoint",
-                         "eq", "reads", "clear" if rng.random() < 0.2 else "add", "remove_present"])
-        x = rng.randrange(0, span + 20)
-        other = sorted(set(rng.randrange(0, span + 20) for _ in range(rng.randint(0, 8))))
-        okind = rng.choice(["set", "BitSet", "SortedIntSet", "list"])
+        op = rng.choice(menu)
+        if op == "clear" and rng.random() < 0.7:
+            op = "add"
+        x = rng.randrange(0, max(1, top))
+        other = sorted(set(rng.randrange(0, max(1, top)) for _ in range(rng.randint(0, 8))))
+        okind = rng.choice(["set", "BitSet", "SortedIntSet", "list", "frozenset", "tuple"])
         ops.append(op)
         step = {"op": op, "x": x, "other": other, "okind": okind}
         prog.append(step)
@@ -101,8 +184,12 @@ def idset_program(ctx, rng):
         def mk_other():
             if okind == "set":
                 return set(other)
+            if okind == "frozenset":
+                return frozenset(other)
             if okind == "list":
                 return list(other)
+            if okind == "tuple":
+                return tuple(other)
             if okind == "BitSet":
                 return BitSet(other) if other else BitSet()
             return SortedIntSet(other)
@@ -120,9 +207,8 @@ def idset_program(ctx, rng):
                     obj.discard(y)
                     model.discard(y)
             elif op == "clear":
-                if hasattr(obj, "clear"):
-                    obj.clear()
-                    model.clear()
+                obj.clear()
+                model.clear()
             elif op == "update":
                 obj.update(mk_other())
                 model.update(other)
@@ -132,16 +218,32 @@ def idset_program(ctx, rng):
             elif op == "difference_update":
                 obj.difference_update(mk_other())
                 model.difference_update(other)
-            elif op == "invert_update":
-                size = (max(model) + 1 if model else 0) + rng.randint(0, 12)
+            elif op in ("invert_update", "invert"):
+                if limit is not None:
+                    size = limit
+                else:
+                    size = (max(model) + 1 if model else 0) + rng.choice([0, 0, 1, 2, 7, 8, 9, 12])
                 step["size"] = size
-                obj.invert_update(size)
-                model = set(range(size)) - model
+                if op == "invert":
+                    got = sorted(obj.invert(size))
+                    exp = sorted(set(range(size)) - model)
+                    if got != exp:
+                        ctx.fail("idset.binop", "%s.invert" % name, w, "got %r expected %r" % (got, exp))
+                else:
+                    obj.invert_update(size)
+                    model = set(range(size)) - model
             elif op == "copy":
                 c = obj.copy()
-                c.add(span + 33)
-                if (span + 33) in obj and (span + 33) not in model:
+                fresh = (max(model) if model else 0) + 33
+                c.add(fresh)
+                if fresh in obj:
                     ctx.fail("idset.copy", "%s.copy-not-independent" % name, w)
+                c.discard(fresh)
+                if model:
+                    y = min(model)
+                    c.discard(y)
+                    if y not in obj:
+                        ctx.fail("idset.copy", "%s.copy-not-independent" % name, w)
                 obj = obj.copy()
             elif op in ("union", "intersection", "difference"):
                 got = sorted(getattr(obj, op)(mk_other()))
@@ -150,19 +252,50 @@ def idset_program(ctx, rng):
                     ctx.fail("idset.binop", "%s.%s(%s)" % (name, op, okind), w, "got %r expected %r" % (got, exp))
                 if sorted(obj) != sorted(model):
                     ctx.fail("idset.binop", "%s.%s(%s)-mutated-self" % (name, op, okind), w)
+            elif op == "operators":
+                o2 = make(kind, other)
+                sym = rng.choice(["|", "&", "-"])
+                step["sym"] = sym
+                if sym == "|":
+                    got, exp = sorted(obj | o2), sorted(model | set(other))
+                elif sym == "&":
+                    got, exp = sorted(obj & o2), sorted(model & set(other))
+                else:
+                    got, exp = sorted(obj - o2), sorted(model - set(other))
+                if got != exp:
+                    ctx.fail("idset.binop", "%s.operator%s" % (name, sym), w, "got %r expected %r" % (got, exp))
+                if sorted(obj) != sorted(model):
+                    ctx.fail("idset.binop", "%s.operator%s-mutated-self" % (name, sym), w)
             elif op == "isdisjoint":
                 got = obj.isdisjoint(mk_other())
                 if got != model.isdisjoint(other):
                     ctx.fail("idset.binop", "%s.isdisjoint(%s)" % (name, okind), w, "got %r" % got)
             elif op == "eq":
-                same = cls(sorted(model)) if model else cls()
-                if not (obj == same):
-                    ctx.fail("idset.binop", "%s.__eq__" % name, w, "not equal to a fresh set with the same members")
+                same = make(kind, model)
+                if not (obj == same) or (obj != same):
+                    ctx.fail("idset.binop", "%s.__eq__:equal-sets-unequal" % name, w,
+                             "not equal to a fresh set with the same members")
+                ctx.count("idset.eq.equal")
+                # a different set: drop the largest member / add a larger one / arbitrary other
+                how = rng.choice(["drop-last", "append", "other"])
+                if how == "drop-last" and model:
+                    m2 = set(sorted(model)[:-1])
+                elif how == "append" and (limit is None or (limit - 1) not in model):
+                    m2 = set(model) | {(max(model) + 1 if model else 0) if limit is None else limit - 1}
+                else:
+                    m2 = set(other)
+                step["eq_other"] = sorted(m2)
+                if m2 != model:
+                    diff = make(kind, m2)
+                    ctx.count("idset.eq.unequal")
+                    if (obj == diff) or not (obj != diff):
+                        ctx.fail("idset.binop", "%s.__eq__:different-sets-equal" % name, w,
+                                 "members %r compare equal to %r" % (sorted(model), sorted(m2)))
             elif op == "reads":
-                _reads(ctx, name, obj, model, rng, span, w)
+                _reads(ctx, name, obj, model, rng, span, w, limit)
         except Exception as e:  # noqa
             mech = "%s.%s" % (name, op)
-            if op in ("update", "intersection_update", "difference_update"):
+            if op in ("update", "intersection_update", "difference_update", "union", "intersection", "difference"):
                 mech += "(%s%s)" % (okind, "" if other else "-empty")
             ctx.fail("idset.op", "%s:exc:%s" % (mech, type(e).__name__), w, repr(e))
             return ("idset", name, ctor, tuple(ops)), bool(model), w
@@ -180,11 +313,11 @@ def idset_program(ctx, rng):
                 mech += "(%s)" % okind
             ctx.fail("idset.op", mech + ":wrong-members", w, "members %r expected %r" % (now, sorted(model)))
             return ("idset", name, ctor, tuple(ops)), bool(model), w
-    _reads(ctx, name, obj, model, rng, span, w)
-    # derived views
-    if cls is BitSet:
-        from whoosh.filedb.filestore import RamStorage
-        from whoosh.idsets import OnDiskBitSet
+    _reads(ctx, name, obj, model, rng, span, w, limit)
+    if nfail(ctx) != nf0:
+        return ("idset", name, ctor, tuple(ops)), bool(model), w
+    # derived views of the final state
+    if kind == "BitSet":
         st = RamStorage()
         f = st.create_file("b")
         pre = rng.choice([0, 3])
@@ -194,32 +327,26 @@ def idset_program(ctx, rng):
         od = OnDiskBitSet(st.open_file("b"), pre, n)
         _reads(ctx, "OnDiskBitSet", od, model, rng, span, w)
         ctx.count("idset.ondisk")
-    from whoosh.idsets import ReverseIdSet
-    lim = (max(model) + 1 if model else 0) + rng.randint(0, 5)
-    rv = ReverseIdSet(obj, lim)
-    rm = set(range(lim)) - model
-    w2 = dict(w, reverse_limit=lim)
-    srm = sorted(rm)
-
-    def chk(what, fn, expect, empty_ok=False):
-        ctx.count("idset.reads")
-        try:
-            got = fn()
-        except Exception as e:  # noqa
-            if empty_ok and not rm:
-                return
-            ctx.fail("idset.read", "ReverseIdSet.%s:exc:%s" % (what, type(e).__name__), w2, repr(e))
-            return
-        if got != expect:
-            ctx.fail("idset.read", "ReverseIdSet.%s" % what, w2, "got %r expected %r" % (got, expect))
-    chk("iter", lambda: list(rv), srm)
-    chk("len", lambda: len(rv), len(srm))
-    x = rng.randrange(0, lim + 1)
-    if x < lim:
-        chk("contains", lambda: x in rv, x in rm)
-    chk("first", lambda: rv.first(), srm[0] if srm else None, True)
-    chk("last", lambda: rv.last(), srm[-1] if srm else None, True)
-    ctx.count("idset.reverse")
+        f = st.open_file("b")
+        f.seek(pre)
+        ok, fd = ctx.guard("idset.read", w, BitSet.from_disk, f, n)
+        if ok:
+            _reads(ctx, "BitSet.from_disk", fd, model, rng, span, w)
+            fresh = (max(model) if model else 0) + 50
+            fd.add(fresh)
+            if fresh in obj:
+                ctx.fail("idset.copy", "BitSet.from_disk-shares-state", w)
+        ok, fb = ctx.guard("idset.read", w, BitSet.from_bytes, bytes(bytearray(obj.bits)))
+        if ok:
+            _reads(ctx, "BitSet.from_bytes", fb, model, rng, span, w)
+        ctx.count("idset.frombytes")
+    if kind != "ReverseIdSet":
+        lim = (max(model) + 1 if model else 0) + rng.randint(0, 5)
+        rv = ReverseIdSet(obj, lim)
+        rm = set(range(lim)) - model
+        w2 = dict(w, reverse_limit=lim)
+        _reads(ctx, "ReverseIdSet", rv, rm, rng, span, w2, lim)
+        ctx.count("idset.reverse")
     return ("idset", name, ctor, tuple(ops)), bool(model), w
 
 
@@ -235,7 +362,7 @@ def multi_case(ctx, rng):
         mm |= set(i + base for i in ids)
         sig.append((cls.__name__, n, len(ids)))
         base += n
-    w = {"class": "MultiIdSet", "offsets": offs, "members": sorted(mm)}
+    w = {"class": "MultiIdSet", "offsets": offs, "total": base, "members": sorted(mm)}
     try:
         ms = MultiIdSet(parts, offs)
         got = list(ms)
@@ -247,6 +374,7 @@ def multi_case(ctx, rng):
                 break
         if len(ms) != len(mm):
             ctx.fail("idset.read", "MultiIdSet.len", w, "got %r" % len(ms))
+        _reads(ctx, "MultiIdSet", ms, mm, rng, base, w, base)
     except Exception as e:  # noqa
         ctx.fail("idset.read", "MultiIdSet:exc:%s" % type(e).__name__, w, repr(e))
     ctx.count("idset.multi")
@@ -257,51 +385,164 @@ def multi_case(ctx, rng):
 # tables
 # ----------------------------------------------------------------------
 
+class ShiftedIO(object):
+    """File-like object whose logical offsets are physical offsets + base: lets the table
+    code see file positions beyond 2^16 / 2^31 / 2^32 without writing gigabytes."""
+
+    def __init__(self, base):
+        self.b = io.BytesIO()
+        self.base = base
+
+    def tell(self):
+        return self.b.tell() + self.base
+
+    def seek(self, pos, whence=0):
+        if whence == 0:
+            self.b.seek(pos - self.base)
+        else:
+            self.b.seek(pos, whence)
+        return self.tell()
+
+    def read(self, *a):
+        return self.b.read(*a)
+
+    def readline(self, *a):
+        return self.b.readline(*a)
+
+    def write(self, d):
+        return self.b.write(d)
+
+    def flush(self):
+        pass
+
+    def close(self):
+        pass
+
+    def size(self):
+        return len(self.b.getvalue())
+
+
+def _model_hash(ht, key):
+    """Independent re-statement of the three documented hash functions; used ONLY to choose keys that
+    collide in one of the 256 buckets and to count probe wrap-arounds (reach counters), never as an oracle."""
+    if ht == 0:
+        return int(hashlib.md5(key).hexdigest(), 16) & 0xffffffff
+    if ht == 1:
+        return zlib.crc32(key) & 0xffffffff
+    h = 5381
+    for c in key:
+        h = ((h + (h << 5)) & 0xffffffff) ^ c
+    return h
+
+
+def _count_wraps(ht, keys):
+    buckets = collections.defaultdict(list)
+    for k in keys:
+        h = _model_hash(ht, k)
+        buckets[h & 255].append(h)
+    wraps = 0
+    biggest = 0
+    for hs in buckets.values():
+        n = 2 * len(hs)
+        biggest = max(biggest, len(hs))
+        taken = [False] * n
+        for h in hs:
+            s = (h >> 8) % n
+            while taken[s]:
+                s += 1
+                if s == n:
+                    s = 0
+                    wraps += 1
+            taken[s] = True
+    return wraps, biggest
+
+
+BASES = [0, 0, 0, 2 ** 16 - 40, 2 ** 31 - 300, 2 ** 32 - 300, 2 ** 40]
+
+
+def _open_table(rng, st, name):
+    """-> (structfile for writing, reopen() -> (structfile, length, startoffset), label)"""
+    from whoosh.filedb.structfile import StructFile
+    base = rng.choice(BASES)
+    if base:
+        raw = ShiftedIO(base)
+        return StructFile(raw), (lambda: (StructFile(raw), raw.size(), base)), base
+    pre = rng.choice([0, 0, 7])
+    f = st.create_file(name)
+    f.write(b"x" * pre)
+    return f, (lambda: (st.open_file(name), st.file_length(name) - pre, pre)), pre
+
+
 def hash_case(ctx, rng):
     from whoosh.filedb.filestore import RamStorage
     from whoosh.filedb.filetables import HashWriter, HashReader
     st = RamStorage()
     ht = rng.choice([0, 1, 2])
     n = rng.choice([0, 1, 2, 5, 50, 300, 1200])
-    style = rng.choice(["random", "prefix", "dups", "tiny"])
+    style = rng.choice(["random", "prefix", "dups", "tiny", "bucket", "bucket"])
     items = []
-    for i in range(n):
-        if style == "random":
-            k = rb(rng, rng.choice([0, 1, 2, 3, 8, 40]))
-        elif style == "prefix":
-            k = b"key" + rb(rng, rng.choice([0, 1, 2]))
-        elif style == "dups":
-            k = rb(rng, 1)[:1] if rng.random() < 0.5 else b"d"
-        else:
-            k = bytes([rng.randrange(4)])
-        items.append((k, rb(rng, rng.choice([0, 1, 5, 300]))))
+    if style == "bucket":
+        n = min(n, 300)
+        target = rng.randrange(256)
+        tries = 0
+        while len(items) < n and tries < 200000:
+            tries += 1
+            k = rb(rng, rng.choice([1, 2, 3, 8]))
+            if _model_hash(ht, k) & 255 == target:
+                items.append((k, rb(rng, rng.choice([0, 1, 5]))))
+    else:
+        for i in range(n):
+            if style == "random":
+                k = rb(rng, rng.choice([0, 1, 2, 3, 8, 40]))
+            elif style == "prefix":
+                k = b"key" + rb(rng, rng.choice([0, 1, 2]))
+            elif style == "dups":
+                k = rb(rng, 1)[:1] if rng.random() < 0.5 else b"d"
+            else:
+                k = bytes([rng.randrange(4)])
+            items.append((k, rb(rng, rng.choice([0, 1, 5, 300]))))
     w = {"kind": "hash", "hashtype": ht, "n": n, "style": style, "first_keys": [k for k, _ in items[:6]]}
     ctx.count("hash.cases")
+    wraps, biggest = _count_wraps(ht, [k for k, _ in items])
+    ctx.count("hash.bucket_wraps", wraps)
+    if biggest >= 8:
+        ctx.count("hash.crowded_bucket_cases")
+    info = {}
 
     def body():
-        f = st.create_file("h")
-        pre = rng.choice([0, 0, 7])
-        f.write(b"x" * pre)
+        f, reopen, off = _open_table(rng, st, "h")
+        info["off"] = off
+        w["offset"] = off
+        if off > 7:
+            ctx.count("hash.shifted")
         hw = HashWriter(f, hashtype=ht)
-        for k, v in items:
-            hw.add(k, v)
+        if rng.random() < 0.5:
+            for k, v in items:
+                hw.add(k, v)
+        else:
+            hw.add_all(items)
         hw.close()
-        f = st.open_file("h")
-        hr = HashReader(f, st.file_length("h") - pre, startoffset=pre) if pre else HashReader(f, st.file_length("h"))
+        f, length, start = reopen()
+        if start == 0 and rng.random() < 0.5:
+            hr = HashReader(f, length)
+        else:
+            hr = HashReader(f, length, startoffset=start)
         model = collections.OrderedDict()
         for k, v in items:
             model.setdefault(k, []).append(v)
-        probe = list(model)[:40] + [rb(rng, rng.choice([0, 1, 2, 9])) for _ in range(10)]
+        probe = list(model)[:40] + list(model)[-10:] + [rb(rng, rng.choice([0, 1, 2, 9])) for _ in range(10)]
+        if hr.hashtype != ht:
+            ctx.fail("hash", "hashtype-not-restored", w)
         for k in probe:
             got = list(hr.all(k))
-            if got != model.get(k, []):
+            if sorted(got) != sorted(model.get(k, [])):
                 ctx.fail("hash", "all(ht=%d)" % ht, dict(w, key=k), "got %d values expected %d" % (len(got), len(model.get(k, []))))
             if (k in hr) != (k in model):
                 ctx.fail("hash", "contains(ht=%d)" % ht, dict(w, key=k))
             if k in model:
-                if hr[k] != model[k][0]:
+                if hr[k] not in model[k]:
                     ctx.fail("hash", "getitem(ht=%d)" % ht, dict(w, key=k))
-                if hr.get(k, b"?") != model[k][0]:
+                if hr.get(k, b"?") not in model[k]:
                     ctx.fail("hash", "get(ht=%d)" % ht, dict(w, key=k))
             else:
                 if hr.get(k, b"?") != b"?":
@@ -314,13 +555,15 @@ def hash_case(ctx, rng):
             ctx.count("hash.lookups")
         if list(hr.items()) != items:
             ctx.fail("hash", "items(ht=%d)" % ht, w)
+        if list(hr) != items:
+            ctx.fail("hash", "iter(ht=%d)" % ht, w)
         if list(hr.keys()) != [k for k, _ in items]:
             ctx.fail("hash", "keys(ht=%d)" % ht, w)
         if list(hr.values()) != [v for _, v in items]:
             ctx.fail("hash", "values(ht=%d)" % ht, w)
         hr.close()
     ctx.guard("hash", w, body)
-    return ("hash", ht, n, style), n > 0, w
+    return ("hash", ht, n, style, info.get("off")), n > 0, w
 
 
 def ordered_case(ctx, rng):
@@ -336,7 +579,9 @@ def ordered_case(ctx, rng):
     info = {}
 
     def body():
-        f = st.create_file("o")
+        f, reopen, off = _open_table(rng, st, "o")
+        w["offset"] = off
+        info["off"] = off
         ow = OrderedHashWriter(f)
         vals = {}
         for k in keys:
@@ -344,39 +589,49 @@ def ordered_case(ctx, rng):
             vals[k] = v
             ow.add(k, v)
         ow.close()
-        orr = OrderedHashReader(st.open_file("o"), st.file_length("o"))
+        f, length, start = reopen()
+        orr = OrderedHashReader(f, length, startoffset=start)
         info["indextype"] = orr.extras.get("indextype")
         ctx.count("ordered.indextype.%s" % info["indextype"])
+        it = info["indextype"]
         if list(orr.keys()) != keys:
-            ctx.fail("ordered", "keys", w)
+            ctx.fail("ordered", "keys(%s)" % it, w)
         if list(orr.items()) != [(k, vals[k]) for k in keys]:
-            ctx.fail("ordered", "items", w)
+            ctx.fail("ordered", "items(%s)" % it, w)
         for _ in range(25):
             p = rb(rng, rng.choice([0, 1, 2, 3, 4]))
-            if keys and rng.random() < 0.3:
+            r = rng.random()
+            if keys and r < 0.3:
                 p = rng.choice(keys)
+            elif keys and r < 0.4:
+                p = keys[-1] + b"\x00"
+            elif keys and r < 0.5:
+                p = rng.choice(keys)[:-1]
             expk = min([k for k in keys if k >= p], default=None)
             got = orr.closest_key(p)
             if got != expk:
-                ctx.fail("ordered", "closest_key(%s)" % info["indextype"], dict(w, probe=p), "got %r expected %r" % (got, expk))
+                ctx.fail("ordered", "closest_key(%s)" % it, dict(w, probe=p), "got %r expected %r" % (got, expk))
             if list(orr.keys_from(p)) != [k for k in keys if k >= p]:
-                ctx.fail("ordered", "keys_from(%s)" % info["indextype"], dict(w, probe=p))
+                ctx.fail("ordered", "keys_from(%s)" % it, dict(w, probe=p))
             if list(orr.items_from(p)) != [(k, vals[k]) for k in keys if k >= p]:
-                ctx.fail("ordered", "items_from", dict(w, probe=p))
+                ctx.fail("ordered", "items_from(%s)" % it, dict(w, probe=p))
+            if (p in orr) != (p in vals):
+                ctx.fail("ordered", "contains(%s)" % it, dict(w, probe=p))
             ctx.count("ordered.probes")
         for k in keys[:30] + keys[-5:]:
             if orr[k] != vals[k]:
-                ctx.fail("ordered", "getitem", dict(w, key=k))
-        try:
-            ow2 = OrderedHashWriter(st.create_file("o2"))
-            ow2.add(b"b", b"1")
-            ow2.add(b"a", b"2")
-            ctx.fail("ordered", "out-of-order-key-accepted", w)
-        except ValueError:
-            pass
+                ctx.fail("ordered", "getitem(%s)" % it, dict(w, key=k))
         orr.close()
+        for a, b2 in ((b"b", b"a"), (b"a", b"a"), (b"", b"")):
+            try:
+                ow2 = OrderedHashWriter(st.create_file("o2"))
+                ow2.add(a, b"1")
+                ow2.add(b2, b"2")
+                ctx.fail("ordered", "out-of-order-key-accepted", dict(w, keys=[a, b2]))
+            except ValueError:
+                pass
     ctx.guard("ordered", w, body)
-    return ("ordered", len(keys), vsize, info.get("indextype")), bool(keys), w
+    return ("ordered", len(keys), vsize, info.get("indextype"), info.get("off")), bool(keys), w
 
 
 def enc_case(ctx, rng):
@@ -384,24 +639,32 @@ def enc_case(ctx, rng):
     from whoosh.util import numlists, varints
     from whoosh.util.numlists import GrowableArray
     st = RamStorage()
-    kind = rng.choice(["Varints", "ByteEncoding", "UShortEncoding", "UIntEncoding", "varint", "growable", "delta", "structfile"])
+    kind = rng.choice(["Varints", "ByteEncoding", "UShortEncoding", "UIntEncoding", "Simple16", "GInts",
+                       "varint", "growable", "growable", "delta", "structfile", "structfile", "base85"])
     ctx.count("enc.cases")
+    ctx.count("enc.kind.%s" % kind)
     w = {"kind": "enc", "what": kind}
     shape = [kind]
 
     def body():
-        if kind in ("Varints", "ByteEncoding", "UShortEncoding", "UIntEncoding"):
+        if kind in ("Varints", "ByteEncoding", "UShortEncoding", "UIntEncoding", "Simple16", "GInts"):
             enc = getattr(numlists, kind)()
             mx = enc.maxint or 2 ** 40
-            nums = [rng.choice([0, 1, 127, 128, 255, 256, 65535, 65536, 2 ** 24 - 1, 2 ** 24, 2 ** 32 - 1, mx, rng.randrange(mx + 1)])
-                    for _ in range(rng.randint(0, 40))]
+            small = rng.random() < 0.4  # small numbers exercise the packed layouts of Simple16/GInts
+            nums = [rng.choice([0, 1, 2, 3, 15, 127, 128, 255, 256, 65535, 65536, 2 ** 24 - 1, 2 ** 24, 2 ** 28 - 1,
+                                2 ** 32 - 1, mx, rng.randrange(mx + 1)]) if not small else rng.randrange(rng.choice([2, 4, 16, 300]))
+                    for _ in range(rng.randint(0, 60))]
             nums = [n for n in nums if n <= mx]
             w["nums"] = nums[:8]
-            shape.append(len(nums))
+            shape.append((len(nums), small))
             f = st.create_file("n")
+            pre = rng.choice([0, 5])
+            f.write(b"\x00" * pre)
             enc.write_nums(f, nums)
             f.close()
-            got = list(enc.read_nums(st.open_file("n"), len(nums)))
+            f = st.open_file("n")
+            f.seek(pre)
+            got = list(enc.read_nums(f, len(nums)))
             if got != nums:
                 ctx.fail("enc", "%s.read_nums" % kind, w, "got %r" % got[:8])
             srt = sorted(nums)
@@ -412,16 +675,16 @@ def enc_case(ctx, rng):
                 got = list(enc.read_deltas(st.open_file("d"), len(srt)))
                 if got != srt:
                     ctx.fail("enc", "%s.read_deltas" % kind, w, "got %r" % got[:8])
-            if nums and hasattr(enc, "get"):
+            if nums:
                 i = rng.randrange(len(nums))
                 try:
-                    g = enc.get(st.open_file("n"), 0, i)
+                    g = enc.get(st.open_file("n"), pre, i)
                 except NotImplementedError:
                     g = nums[i]
                 if g != nums[i]:
-                    ctx.fail("enc", "%s.get" % kind, dict(w, i=i), "got %r" % g)
+                    ctx.fail("enc", "%s.get" % kind, dict(w, i=i), "got %r" % (g,))
         elif kind == "varint":
-            ns = [rng.choice([0, 1, 127, 128, 16383, 16384, 2 ** 31, 2 ** 63, rng.randrange(2 ** 70)]) for _ in range(20)]
+            ns = [rng.choice([0, 1, 127, 128, 511, 512, 16383, 16384, 2 ** 31, 2 ** 63, rng.randrange(2 ** 70)]) for _ in range(20)]
             w["nums"] = ns[:6]
             shape.append(tuple(n.bit_length() // 7 for n in ns[:6]))
             f = st.create_file("v")
@@ -434,20 +697,31 @@ def enc_case(ctx, rng):
                 ctx.fail("enc", "structfile.varint", w, "got %r" % got[:6])
             for n in ns:
                 b = varints.varint(n)
-                if varints.decode_varint(b)[0] != n if hasattr(varints, "decode_varint") else False:
-                    ctx.fail("enc", "varints.varint", dict(w, n=n))
+                if varints.read_varint(io.BytesIO(b + b"\xff").read) != n:
+                    ctx.fail("enc", "varints.read_varint(varint)", dict(w, n=n))
+                if varints.varint_to_int(b) != n:
+                    ctx.fail("enc", "varints.varint_to_int(varint)", dict(w, n=n))
                 s = n if rng.random() < 0.5 else -n
-                if abs(s) < 2 ** 62:
-                    if varints.decode_signed_varint(varints.signed_varint(s)) != s:
-                        ctx.fail("enc", "varints.signed_varint", dict(w, n=s))
+                zz = varints.read_varint(io.BytesIO(varints.signed_varint(s)).read)
+                if varints.decode_signed_varint(zz) != s:
+                    ctx.fail("enc", "varints.signed_varint", dict(w, n=s))
         elif kind == "growable":
-            ns = [rng.choice([0, 1, 65535, 65536, 2 ** 31 - 1, 2 ** 31, 2 ** 32 - 1, 2 ** 32, 2 ** 40, rng.randrange(2 ** 17)])
+            ns = [rng.choice([0, 1, 255, 256, 65535, 65536, 2 ** 31 - 1, 2 ** 31, 2 ** 32 - 1, 2 ** 32, 2 ** 40, rng.randrange(2 ** 17)])
                   for _ in range(rng.randint(0, 12))]
+            cap = rng.choice([2 ** 8, 2 ** 16, 2 ** 31, 2 ** 32, 2 ** 62])
+            ns = [n for n in ns if n < cap]
+            if rng.random() < 0.5:
+                ns.sort()   # offsets grow monotonically in the real use
+            init = rng.choice(["B", "H", "H"])
             w["nums"] = ns
-            ga = GrowableArray("H")
-            for n in ns:
-                ga.append(n)
-            shape.append(ga.typecode)
+            w["inittype"] = init
+            ga = GrowableArray(init)
+            if rng.random() < 0.5:
+                for n in ns:
+                    ga.append(n)
+            else:
+                ga.extend(ns)
+            shape.append((init, ga.typecode, len(ns)))
             ctx.count("enc.growable.%s" % ga.typecode)
             if list(ga) != ns or len(ga) != len(ns):
                 ctx.fail("enc", "GrowableArray.iter(%s)" % ga.typecode, w, "got %r" % list(ga))
@@ -455,7 +729,7 @@ def enc_case(ctx, rng):
             ga.to_file(f)
             f.close()
             tc = ga.typecode
-            if ns and tc != "q":
+            if ns:
                 got = list(st.open_file("g").read_array(tc, len(ns)))
                 if got != ns:
                     ctx.fail("enc", "GrowableArray.to_file(%s)" % tc, w, "got %r" % got)
@@ -464,43 +738,95 @@ def enc_case(ctx, rng):
             ns = sorted(rng.randrange(2 ** rng.choice([4, 16, 40])) for _ in range(rng.randint(0, 30)))
             w["nums"] = ns[:8]
             shape.append(len(ns))
-            if list(delta_decode(delta_encode(ns))) != ns:
+            enc = list(delta_encode(ns))
+            if list(delta_decode(enc)) != ns:
                 ctx.fail("enc", "delta_encode/decode", w)
+            if any(d < 0 for d in enc):
+                ctx.fail("enc", "delta_encode-negative-gap", w)
+        elif kind == "base85":
+            from whoosh.support import base85
+            shape.append("ints")
+            prev = None
+            xs = sorted(rng.choice([0, 1, 84, 85, 85 ** 5 - 1, rng.randrange(85 ** 5)]) for _ in range(12))
+            w["nums"] = xs[:6]
+            for islong in (False, True):
+                top = 85 ** 10 if islong else 85 ** 5
+                ys = xs + ([top - 1, rng.randrange(top)] if islong else [])
+                encs = []
+                for x in sorted(ys):
+                    t = base85.to_base85(x, islong)
+                    encs.append(t)
+                    if base85.from_base85(t) != x:
+                        ctx.fail("enc", "base85.int-roundtrip", dict(w, x=x))
+                if encs != sorted(encs):
+                    ctx.fail("enc", "base85.int-order", w)
         else:
-            # StructFile typed round trips
+            # StructFile typed round trips (sequential reads and positional get_*)
+            import struct
             f = st.create_file("s")
             vals = []
+            rngs = {"byte": (0, 255), "sbyte": (-128, 127), "ushort": (0, 65535), "short": (-2 ** 15, 2 ** 15 - 1),
+                    "uint": (0, 2 ** 32 - 1), "int": (-2 ** 31, 2 ** 31 - 1), "long": (-2 ** 63, 2 ** 63 - 1),
+                    "ulong": (0, 2 ** 64 - 1), "ushort_le": (0, 65535), "uint_le": (0, 2 ** 32 - 1),
+                    "tagint": (0, 2 ** 32 - 1)}
             for _ in range(rng.randint(1, 30)):
-                t = rng.choice(["byte", "sbyte", "ushort", "short", "uint", "int", "long", "ulong", "float", "double", "string", "varint", "svarint"])
-                rngs = {"byte": (0, 255), "sbyte": (-128, 127), "ushort": (0, 65535), "short": (-2 ** 15, 2 ** 15 - 1),
-                        "uint": (0, 2 ** 32 - 1), "int": (-2 ** 31, 2 ** 31 - 1), "long": (-2 ** 63, 2 ** 63 - 1),
-                        "ulong": (0, 2 ** 64 - 1)}
+                t = rng.choice(["byte", "sbyte", "ushort", "short", "uint", "int", "long", "ulong", "float", "double",
+                                "string", "string2", "string4", "varint", "svarint", "ushort_le", "uint_le", "tagint",
+                                "pickle", "array"])
                 if t in rngs:
                     lo, hi = rngs[t]
-                    v = rng.choice([lo, hi, 0, rng.randint(lo, hi)])
+                    v = rng.choice([lo, hi, 0, rng.randint(lo, hi), rng.randint(lo, min(hi, 300)), 253, 254, 255])
+                    if not lo <= v <= hi:
+                        v = lo
                 elif t == "float":
-                    import struct
                     v = struct.unpack("!f", struct.pack("!f", rng.uniform(-1e6, 1e6)))[0]
                 elif t == "double":
                     v = rng.uniform(-1e300, 1e300)
-                elif t == "string":
+                elif t in ("string", "string2", "string4"):
                     v = rb(rng, rng.choice([0, 1, 127, 128, 300]))
                 elif t == "varint":
                     v = rng.randrange(2 ** rng.choice([3, 14, 35, 64]))
+                elif t == "svarint":
+                    v = rng.randrange(2 ** rng.choice([3, 14, 35, 62])) * rng.choice([1, -1])
+                elif t == "pickle":
+                    v = {"k": rng.randrange(1000), "l": [rb(rng, 3), None, 1.5]}
                 else:
-                    v = rng.randrange(2 ** rng.choice([3, 14, 35])) * rng.choice([1, -1])
+                    import array as _array
+                    tc = rng.choice(["B", "H", "i", "I", "q"])
+                    hi = {"B": 255, "H": 65535, "i": 2 ** 31 - 1, "I": 2 ** 32 - 1, "q": 2 ** 63 - 1}[tc]
+                    v = _array.array(tc, [rng.choice([0, hi, rng.randint(0, hi)]) for _ in range(rng.randint(0, 6))])
                 if not hasattr(f, "write_" + t):
                     continue
+                pos = f.tell()
                 getattr(f, "write_" + t)(v)
-                vals.append((t, v))
+                vals.append((t, v, pos))
             f.close()
             f = st.open_file("s")
-            shape.append(tuple(t for t, _ in vals[:8]))
-            w["values"] = vals[:8]
-            for t, v in vals:
-                got = getattr(f, "read_" + t)()
+            shape.append(tuple(t for t, _, _ in vals[:8]))
+            w["values"] = [(t, v) for t, v, _ in vals[:8]]
+            for t, v, pos in vals:
+                if f.tell() != pos:
+                    ctx.fail("enc", "structfile.%s:position-before" % t, dict(w, value=v), "tell %r expected %r" % (f.tell(), pos))
+                    break
+                if t == "array":
+                    got = f.read_array(v.typecode, len(v))
+                else:
+                    got = getattr(f, "read_" + t)()
                 if got != v:
                     ctx.fail("enc", "structfile.%s" % t, dict(w, value=v), "got %r" % (got,))
+                    break
+            g = st.open_file("s")
+            for t, v, pos in vals:
+                if t == "array":
+                    got = g.get_array(pos, v.typecode, len(v))
+                elif hasattr(g, "get_" + t) and t not in ("string2", "string4"):
+                    got = getattr(g, "get_" + t)(pos)
+                elif t in ("string2", "string4"):
+                    got = getattr(g, "get_" + t)(pos)[0]
+                else:
+                    continue
+                if got != v:
+                    ctx.fail("enc", "structfile.get_%s" % t, dict(w, value=v, pos=pos), "got %r" % (got,))
                     break
     ctx.guard("enc", w, body)
     return ("enc", tuple(shape)), True, w
@@ -509,25 +835,32 @@ def enc_case(ctx, rng):
 def extsort_case(ctx, rng):
     from whoosh import externalsort
     n = rng.choice([0, 1, 2, 10, 200, 1000])
-    items = [(rng.randrange(20), rb(rng, 2)) for _ in range(n)]
+    dom = rng.choice([3, 20, 10 ** 6])
+    items = [(rng.randrange(dom), rb(rng, 2)) for _ in range(n)]
     maxsize = rng.choice([1, 2, 7, 50, 1000, 100000])
     maxfiles = rng.choice([2, 3, 10, 128])
-    mode = rng.choice(["sort", "merger"])
-    w = {"kind": "extsort", "n": n, "maxsize": maxsize, "maxfiles": maxfiles, "mode": mode}
+    mode = rng.choice(["sort", "pool"])
+    w = {"kind": "extsort", "n": n, "maxsize": maxsize, "maxfiles": maxfiles, "mode": mode, "key_domain": dom}
     ctx.count("extsort.cases")
     d = tempfile.mkdtemp(prefix="vf-c20-")
 
     def body():
         if mode == "sort":
             got = list(externalsort.sort(items, maxsize=maxsize, tempdir=d, maxfiles=maxfiles))
+            nruns = (n - 1) // maxsize + 1 if n > maxsize else 0
         else:
-            sp = externalsort.SortingPool(maxsize=maxsize, tempdir=d)
+            sp = externalsort.SortingPool(maxsize=maxsize, tempdir=d, prefix=rng.choice(["", "p"]))
             for it in items:
                 sp.add(it)
+            nruns = len(sp.runs) + (1 if sp.runs and sp.current else 0)
+            if sp.runs and len(os.listdir(d)) != len(sp.runs):
+                ctx.fail("extsort", "run-files-vs-run-list", w, "%d files, %d runs" % (len(os.listdir(d)), len(sp.runs)))
             got = list(sp.items(maxfiles=maxfiles))
-            ctx.count("extsort.runs", len(getattr(sp, "runs", [])))
+        ctx.count("extsort.runs", nruns)
+        if nruns > maxfiles:
+            ctx.count("extsort.reduced")
         if got != sorted(items):
-            ctx.fail("extsort", "sorted-output", w, "len got %d expected %d" % (len(got), len(items)))
+            ctx.fail("extsort", "sorted-output(%s)" % mode, w, "len got %d expected %d" % (len(got), len(items)))
         left = os.listdir(d)
         if left:
             ctx.fail("extsort", "temp-files-left-behind", w, repr(left[:3]))
@@ -544,27 +877,18 @@ def compound_case(ctx, rng):
     names = ["f%d.x" % i for i in range(rng.randint(1, 5))]
     mmap = rng.random() < 0.5
     sizes = [rng.choice([0, 1, 100, 4095, 4096, 40000]) for _ in names]
-    bufsize = rng.choice([16, 1024, 32 * 1024])
+    bufsize = rng.choice([1, 16, 1024, 32 * 1024])
     w = {"kind": "compound", "mmap": mmap, "sizes": sizes, "buffersize": bufsize}
     ctx.count("compound.cases")
     d = tempfile.mkdtemp(prefix="vf-c20-")
 
-    def body():
-        fs = FileStorage(d, supports_mmap=mmap)
-        content = {}
-        for n, sz in zip(names, sizes):
-            content[n] = rb(rng, sz)
-            f = fs.create_file(n)
-            f.write(content[n])
-            f.close()
-        cf = fs.create_file("c.seg")
-        CompoundStorage.assemble(cf, fs, names)
-        cs = CompoundStorage(fs.open_file("c.seg"), use_mmap=mmap)
-        for n in names:
+    def verify(cs, content, label):
+        for n in sorted(content):
+            ctx.count("compound.members")
             f = cs.open_file(n)
             got = bytes(f.read())
             if got != content[n]:
-                ctx.fail("compound", "assemble.read(mmap=%s)" % mmap, dict(w, name=n), "len got %d expected %d" % (len(got), len(content[n])))
+                ctx.fail("compound", "%s.read(mmap=%s)" % (label, mmap), dict(w, name=n), "len got %d expected %d" % (len(got), len(content[n])))
             if content[n]:
                 a = rng.randrange(len(content[n]))
                 b = rng.randrange(a, len(content[n]) + 1)
@@ -572,15 +896,50 @@ def compound_case(ctx, rng):
                 f.seek(a)
                 got = bytes(f.read(b - a))
                 if got != content[n][a:b]:
-                    ctx.fail("compound", "assemble.seek-read(mmap=%s)" % mmap, dict(w, name=n, a=a, b=b))
+                    ctx.fail("compound", "%s.seek-read(mmap=%s)" % (label, mmap), dict(w, name=n, a=a, b=b))
+                if f.tell() != b:
+                    ctx.fail("compound", "%s.tell(mmap=%s)" % (label, mmap), dict(w, name=n, a=a, b=b), "tell %r" % f.tell())
+                if bytes(f.get(a, b - a)) != content[n][a:b]:
+                    ctx.fail("compound", "%s.get(mmap=%s)" % (label, mmap), dict(w, name=n, a=a, b=b))
+                # reading past the end of a member must not leak the next member's bytes
+                f.seek(max(0, len(content[n]) - 3))
+                tail = bytes(f.read(50))
+                if tail != content[n][max(0, len(content[n]) - 3):]:
+                    ctx.fail("compound", "%s.read-past-end(mmap=%s)" % (label, mmap), dict(w, name=n), "got %d bytes" % len(tail))
             if cs.file_length(n) != len(content[n]):
-                ctx.fail("compound", "file_length", dict(w, name=n))
+                ctx.fail("compound", "%s.file_length" % label, dict(w, name=n))
             if not cs.file_exists(n):
-                ctx.fail("compound", "file_exists", dict(w, name=n))
-        if sorted(cs.list()) != sorted(names):
-            ctx.fail("compound", "list", w, repr(cs.list()))
+                ctx.fail("compound", "%s.file_exists" % label, dict(w, name=n))
+        # two members open at once, read in interleaved chunks
+        ns = sorted(content)
+        if len(ns) >= 2:
+            n1, n2 = rng.sample(ns, 2)
+            f1, f2 = cs.open_file(n1), cs.open_file(n2)
+            g1 = g2 = b""
+            for _ in range(6):
+                g1 += bytes(f1.read(rng.choice([1, 7, 1000])))
+                g2 += bytes(f2.read(rng.choice([1, 7, 1000])))
+            g1 += bytes(f1.read())
+            g2 += bytes(f2.read())
+            if g1 != content[n1] or g2 != content[n2]:
+                ctx.fail("compound", "%s.interleaved-read(mmap=%s)" % (label, mmap), dict(w, names=[n1, n2]))
+        if sorted(cs.list()) != sorted(content):
+            ctx.fail("compound", "%s.list" % label, w, repr(cs.list()))
         if cs.file_exists("nope"):
-            ctx.fail("compound", "file_exists-absent", w)
+            ctx.fail("compound", "%s.file_exists-absent" % label, w)
+
+    def body():
+        fs = FileStorage(d, supports_mmap=mmap)
+        content = {}
+        for n, sz in zip(names, sizes):
+            content[n] = rb(rng, sz) if sz < 5000 else rb(rng, 100) * (sz // 100)
+            f = fs.create_file(n)
+            f.write(content[n])
+            f.close()
+        cf = fs.create_file("c.seg")
+        CompoundStorage.assemble(cf, fs, names)
+        cs = CompoundStorage(fs.open_file("c.seg"), use_mmap=mmap)
+        verify(cs, content, "assemble")
         cs.close()
         cw = CompoundWriter(fs, buffersize=bufsize)
         c2 = {}
@@ -590,15 +949,28 @@ def compound_case(ctx, rng):
             chunk = rb(rng, rng.choice([0, 1, 10, 2000]))
             fls[n].write(chunk)
             c2[n] = c2.get(n, b"") + chunk
-        out = fs.create_file("d.seg")
-        cw.save_as_compound(out)
-        cs = CompoundStorage(fs.open_file("d.seg"), use_mmap=mmap)
+            if fls[n].tell() != len(c2[n]):
+                ctx.fail("compound", "writer.tell(buf=%d)" % bufsize, dict(w, name=n), "tell %r expected %r" % (fls[n].tell(), len(c2[n])))
         for n in names:
-            if n in c2 or cs.file_exists(n):
-                got = bytes(cs.open_file(n).read())
-                if got != c2.get(n, b""):
-                    ctx.fail("compound", "writer.read(buf=%d)" % bufsize, dict(w, name=n), "len got %d expected %d" % (len(got), len(c2.get(n, b""))))
-        cs.close()
+            c2.setdefault(n, b"")
+        if rng.random() < 0.7:
+            out = fs.create_file("d.seg")
+            cw.save_as_compound(out)
+            cs = CompoundStorage(fs.open_file("d.seg"), use_mmap=mmap)
+            verify(cs, c2, "writer(buf=%d)" % bufsize)
+            cs.close()
+        else:
+            cw.save_as_files(fs, lambda nm: "out-" + nm)
+            for n in names:
+                ctx.count("compound.members")
+                f = fs.open_file("out-" + n)
+                got = bytes(f.read())
+                f.close()
+                if got != c2[n]:
+                    ctx.fail("compound", "writer.save_as_files(buf=%d)" % bufsize, dict(w, name=n), "len got %d expected %d" % (len(got), len(c2[n])))
+        left = [x for x in os.listdir(d) if x.endswith(".ctmp")]
+        if left:
+            ctx.fail("compound", "writer.temp-file-left-behind", w, repr(left))
     try:
         ctx.guard("compound", w, body)
     finally:
@@ -606,13 +978,13 @@ def compound_case(ctx, rng):
     return ("compound", mmap, tuple(sizes), bufsize), any(sizes), w
 
 
-KINDS = [(idset_program, 10, "idset.programs"), (multi_case, 2, None), (hash_case, 2, None), (ordered_case, 2, None),
-         (enc_case, 3, None), (extsort_case, 1, None), (compound_case, 1, None)]
+KINDS = [(idset_program, 10), (multi_case, 2), (hash_case, 2), (ordered_case, 2),
+         (enc_case, 3), (extsort_case, 1), (compound_case, 1)]
 
 
 def run(ctx):
     bag = []
-    for fn, wt, _ in KINDS:
+    for fn, wt in KINDS:
         bag += [fn] * wt
     for idx in ctx.cases(quick=1500, thorough=12000):
         rng = ctx.rng(idx)
